@@ -1,6 +1,9 @@
 package btccurve
 
 import (
+	"math/rand"
+	"fmt"
+	"sync"
 	"crypto/elliptic"
 	"encoding/json"
 	"math/big"
@@ -186,6 +189,15 @@ func runF(op string, in M) (M, M) {
 		qq, s := new(big.Int).DivMod(sum, sn, new(big.Int))
 		sbytes := s.Bytes()
 		p := vCatch(func() {
+			// the buffer held another scalar a moment ago (used, then overwritten in place)
+			for i := range ab {
+				ab[i] ^= 0x5a
+			}
+			Secp256k1().ScalarBaseMult(ab)
+			Secp256k1().ScalarMult(sgx, sgy, ab)
+			for i := range ab {
+				ab[i] ^= 0x5a
+			}
 			ax, ay = Secp256k1().ScalarBaseMult(ab)
 			bx, by = Secp256k1().ScalarBaseMult(bb)
 			sx, sy = Secp256k1().ScalarBaseMult(sbytes)
@@ -206,6 +218,12 @@ func runF(op string, in M) (M, M) {
 			cert["sum"] = sumCert(A, B, S)
 		}
 		return out, cert
+	case "ecb.par":
+		res, crashed := vChild("TestVerifFirstUse", in)
+		if crashed != "" {
+			res = crashed
+		}
+		return M{"panic": res}, M{}
 	case "ecb.OnCurve":
 		x, y := vFromLimbs(in["x"]), vFromLimbs(in["y"])
 		var on bool
@@ -218,6 +236,44 @@ func runF(op string, in M) (M, M) {
 		return M{"on": on, "panic": p}, M{"q1": vLimbs(q1), "r1": vLimbs(r1), "q2": vLimbs(q2), "r2": vLimbs(r2)}
 	}
 	panic("unknown op " + op)
+}
+
+func TestVerifFirstUse(t *testing.T) {
+	in := vChildSpec()
+	if in == nil {
+		t.Skip()
+	}
+	rr := rand.New(rand.NewSource(int64(vIntOf(in["seed"]))))
+	const K = 8
+	ks := make([][]byte, K)
+	for i := range ks {
+		ks[i] = make([]byte, 32)
+		rr.Read(ks[i])
+	}
+	mul := func(i int) string {
+		x, y := Secp256k1().ScalarBaseMult(ks[i])
+		x2, y2 := Secp256k1().ScalarMult(x, y, ks[(i+1)%K])
+		if x == nil || y == nil || x2 == nil || y2 == nil {
+			return "nil"
+		}
+		return x.String() + "," + y.String() + "," + x2.String() + "," + y2.String()
+	}
+	got := make([]string, K)
+	var wg sync.WaitGroup
+	start := make(chan struct{})
+	for g := 0; g < K; g++ {
+		wg.Add(1)
+		go func(g int) { defer wg.Done(); <-start; got[g] = mul(g) }(g)
+	}
+	close(start)
+	wg.Wait()
+	msg := ""
+	for g := 0; g < K; g++ {
+		if mul(g) != got[g] {
+			msg = "verif: a multiple computed during concurrent first use of the curve differs from the one computed later"
+		}
+	}
+	fmt.Println("VERIF-CHILD-OUT " + msg)
 }
 
 func TestVerifDriver(t *testing.T) {
@@ -247,6 +303,9 @@ func TestVerifDriver(t *testing.T) {
 	}
 	r := vRand(17)
 	n := vEnvInt("VERIF_N", 30)
+	if vEnvInt("VERIF_PAR_MS", 1200) > 0 {
+		emit("ecb.par", M{"seed": r.Intn(1 << 30)})
+	}
 	g := pt{sgx, sgy}
 	rndScalar := func() *big.Int {
 		b := make([]byte, 32)
